@@ -608,6 +608,49 @@ class Discharger:
             self._bodies[path] = Body(self.F.fns[path])
         return self._bodies[path]
 
+    # payloads that are non-empty by construction, with the rule that checks the construction sites
+    NONEMPTY_PAYLOADS = {"LabelsNotDefined": "C16.c.labels-construction-guard"}
+
+    def nonempty_source(self, B, v, fn, depth=0):
+        """is the collection value `v` the payload of a variant that is only ever built from a non-empty collection - directly, or as a parameter that every caller fills with such a payload?"""
+        while v and v[0] in ("ref", "proj") and (v[0] == "ref" or all(x == "*" for x in v[2])):
+            v = v[1]
+        if not v or depth > 3:
+            return None
+        if v[0] == "proj":
+            for x in v[2]:
+                m = re.match(r"as:(\w+):\d+$", str(x))
+                if m and m.group(1) in self.NONEMPTY_PAYLOADS and v[2][-1] == "f0":
+                    return f"the payload of {m.group(1)}, which is only built from a non-empty set ({self.NONEMPTY_PAYLOADS[m.group(1)]})"
+            return None
+        if v[0] == "param":
+            cs = self.F.callers_of(fn)
+            if not cs or (self.F.fns[fn].get("vis") or "") == "Public":
+                return None
+            whys = set()
+            for caller, bi, t in cs:
+                if caller not in self.F.fns or "mir" not in self.F.fns[caller] or v[1] - 1 >= len(t["args"]):
+                    return None
+                Bc = self.body(caller)
+                w = self.nonempty_source(Bc, Bc.trace(t["args"][v[1] - 1]), caller, depth + 1)
+                if not w:
+                    return None
+                whys.add(w)
+            return f"parameter `{v[2]}`: at each of the {len(cs)} call sites it is " + "; ".join(sorted(whys))
+        return None
+
+    def first_of_nonempty(self, B, v, fn):
+        """`X.iter().min()` / `.max()` / `.next()` / `.last()` of a collection that cannot be empty is Some"""
+        if not v or v[0] != "call" or not re.search(r"Iterator::(min|max|next|last)$", v[1]) or not v[2]:
+            return None
+        it = v[2][0]
+        while it and it[0] == "ref":
+            it = it[1]
+        if not it or it[0] != "call" or not re.search(r"::(iter|into_iter)$", it[1]) or not it[2]:
+            return None
+        src = self.nonempty_source(B, it[2][0], fn)
+        return f"{v[1].rsplit('::', 1)[-1]}() over {src}" if src else None
+
     def arg_ranges_at_callers(self, path, param_index):
         """Union of the ranges of argument #param_index over every call site of `path` (None if unknown)."""
         lo = hi = None
@@ -771,6 +814,10 @@ class Discharger:
             return None
         # calls
         c = s["kind"]
+        if re.search(r"Option::<T>::(unwrap|expect)$", c) and t.get("args"):
+            why = self.first_of_nonempty(B, B.trace(t["args"][0]), s["fn"])
+            if why:
+                return "D7", why
         if re.search(r"<impl (i|u)\d+>::(checked)_(div|rem)", c):
             return "D5", "checked division returns None on a zero divisor"
         if re.search(r"<impl (i|u)\d+>::(wrapping|overflowing|saturating)?_?(div|rem|div_euclid|rem_euclid)$", c) and len(t["args"]) == 2:
